@@ -335,7 +335,7 @@ fn last_retry_case(i: u64) -> C08Case {
 pub fn c08(ctx: &Ctx, rep: &mut Report) {
     rep.rule = "base executions = workloads with streams mid-transfer (blocked writers/readers), pending opens, pending accept, pending get_datagram, pending/held bind requests and next_bind_request, options incl. max_flow_id_retries 1..3, under a generated schedule. \
                 For each base execution of n steps EVERY step k in 0..=n is a cut point and at each one EVERY fault kind (peer Close, A->B cut, B->A cut with error / with EOF, both, half-dead link with a silent peer, invalid frame, invalid frame + silent peer, local Multiplexor drop) is injected in a fresh deterministic re-run of the prefix (exhaustive in the cut-point x fault-kind dimension). \
-                Oracle after running to quiescence: connection task finished, no application future blocked, reads = consistent prefix then EOF, writes fail with BrokenPipe, multiplexor calls return Closed (bind: false/Closed), local drop: all queued frames transmitted in order before Close. \
+                Oracle after running to quiescence: connection task finished, no application future blocked, reads = consistent prefix then EOF, writes fail with BrokenPipe, multiplexor calls return Closed (bind: false/Closed), local drop: all queued frames transmitted in order before Close (also, on a real tokio current-thread runtime, with a backlog of 1..5000 datagrams held back by a back-pressured sink). \
                 evaluations = base executions; coverage.fault_injections = individual fault runs. Non-trivial = at least one injection hit while a stream read/write, an open request or a bind request was pending or still to come (it completed with an error/EOF after the fault; the always-pending accept/get_datagram/next_bind_request calls do not count). Distinct = distinct base case value."
         .into();
     rep.assumptions = sim_assumptions();
@@ -343,8 +343,139 @@ pub fn c08(ctx: &Ctx, rep: &mut Report) {
     let t = ctx.tier;
     ctx.prop(rep, "cut-points", t.pick(1_500, 30_000), 20, || c08_base().prop_map(|base| C08Case { base, only: None }), run_c08);
     ctx.enumerate(rep, "last-retry-at-teardown", 12 * 14, 10, last_retry_case, run_c08);
+    // the flush after a local drop under a real tokio runtime (cooperative budget, real wake-ups) with a large backlog
+    ctx.enumerate(rep, "drop-flush-backlog", (BACKLOG.len() * 3) as u64, 4, |i| (BACKLOG[(i % BACKLOG.len() as u64) as usize], (i / BACKLOG.len() as u64) as u8), run_backlog);
     rep.extra.insert("fault_injections".into(), serde_json::json!(FAULT_RUNS.load(Ordering::Relaxed)));
     rep.extra.insert("fault_injections_with_pending_ops".into(), serde_json::json!(FAULT_RUNS_PENDING.load(Ordering::Relaxed)));
     rep.extra.insert("fault_kinds".into(), serde_json::json!(FAULTS));
     rep.extra.insert("exhaustive_dimension".into(), serde_json::json!("cut point (every step of each base execution) x fault kind"));
+}
+
+
+// ------------------------------------------------------------------ drop flush with a large backlog, on a real tokio runtime
+
+const BACKLOG: [u32; 9] = [1, 50, 127, 128, 129, 130, 300, 1000, 5000];
+
+/// transport whose sink is closed by a gate (poll_ready Pending while the gate is shut); records what was sent
+struct GateWs {
+    open: std::sync::Arc<std::sync::atomic::AtomicBool>,
+    waker: std::sync::Arc<std::sync::Mutex<Option<std::task::Waker>>>,
+    out: std::sync::Arc<std::sync::Mutex<Vec<penguin_mux::ws::Message>>>,
+    closed: bool,
+    /// let through this many messages per poll_ready before reporting Pending once (a sink that drains in bursts)
+    burst: u32,
+    passed: u32,
+}
+
+impl penguin_mux::ws::WebSocket for GateWs {
+    fn poll_ready_unpin(&mut self, cx: &mut std::task::Context<'_>) -> std::task::Poll<Result<(), penguin_mux::Error>> {
+        if !self.open.load(Ordering::SeqCst) {
+            *self.waker.lock().unwrap() = Some(cx.waker().clone());
+            return std::task::Poll::Pending;
+        }
+        if self.burst > 0 && self.passed >= self.burst {
+            self.passed = 0;
+            cx.waker().wake_by_ref();
+            return std::task::Poll::Pending;
+        }
+        std::task::Poll::Ready(Ok(()))
+    }
+    fn start_send_unpin(&mut self, item: penguin_mux::ws::Message) -> Result<(), penguin_mux::Error> {
+        self.passed += 1;
+        self.out.lock().unwrap().push(item);
+        Ok(())
+    }
+    fn poll_flush_unpin(&mut self, _cx: &mut std::task::Context<'_>) -> std::task::Poll<Result<(), penguin_mux::Error>> {
+        std::task::Poll::Ready(Ok(()))
+    }
+    fn poll_close_unpin(&mut self, _cx: &mut std::task::Context<'_>) -> std::task::Poll<Result<(), penguin_mux::Error>> {
+        if !self.closed {
+            self.closed = true;
+            self.out.lock().unwrap().push(penguin_mux::ws::Message::Close);
+        }
+        std::task::Poll::Ready(Ok(()))
+    }
+    fn poll_next_unpin(&mut self, cx: &mut std::task::Context<'_>) -> std::task::Poll<Option<Result<penguin_mux::ws::Message, penguin_mux::Error>>> {
+        if self.closed {
+            // the peer answers our Close by ending the stream
+            return std::task::Poll::Ready(None);
+        }
+        *self.waker.lock().unwrap() = Some(cx.waker().clone());
+        std::task::Poll::Pending
+    }
+}
+
+/// n datagrams are accepted by send_datagram while the sink is shut, the Multiplexor is dropped, the sink opens: every one of
+/// them must be transmitted, in order, before the Close
+fn run_backlog(c: &(u32, u8)) -> Outcome {
+    use rand::SeedableRng;
+    let (n, mode) = *c;
+    let rt = tokio::runtime::Builder::new_current_thread().enable_time().start_paused(true).build().expect("runtime");
+    let open = std::sync::Arc::new(std::sync::atomic::AtomicBool::new(false));
+    let waker = std::sync::Arc::new(std::sync::Mutex::new(None::<std::task::Waker>));
+    let out = std::sync::Arc::new(std::sync::Mutex::new(vec![]));
+    let ws = GateWs { open: open.clone(), waker: waker.clone(), out: out.clone(), closed: false, burst: if mode == 2 { 7 } else { 0 }, passed: 0 };
+    let finished = rt.block_on(async {
+        let (mux, taskdata) = penguin_mux::Multiplexor::new_detailed::<_, std::time::Instant>(ws, penguin_mux::config::Options::new(), rand::rngs::SmallRng::seed_from_u64(3));
+        let task = tokio::spawn(taskdata.into_task());
+        tokio::task::yield_now().await;
+        for k in 0..n {
+            let d = penguin_mux::Datagram { flow_id: k, target_host: bytes::Bytes::from_static(b"h"), target_port: 9, data: bytes::Bytes::from(k.to_be_bytes().to_vec()) };
+            if mux.send_datagram(d).await.is_err() {
+                return Err(format!("send_datagram {k} refused on a live connection"));
+            }
+        }
+        let release = || {
+            open.store(true, Ordering::SeqCst);
+            if let Some(w) = waker.lock().unwrap().take() {
+                w.wake();
+            }
+        };
+        if mode == 0 {
+            // the sink opens first, the drop follows at once (nothing has been polled in between)
+            release();
+            drop(mux);
+        } else {
+            drop(mux);
+            tokio::task::yield_now().await;
+            release();
+        }
+        match tokio::time::timeout(std::time::Duration::from_secs(3600), task).await {
+            Ok(r) => Ok(r.map(|x| x.map_err(|e| format!("{e:?}"))).map_err(|e| e.to_string())),
+            Err(_) => Err("the connection task did not finish after the drop (1 h of virtual time)".to_string()),
+        }
+    });
+    match finished {
+        Err(m) => return Outcome::violation("c08-backlog-task-hangs", format!("backlog {n}, mode {mode}: {m}")),
+        Ok(Err(join)) => return Outcome::violation("c08-backlog-task-panicked", format!("backlog {n}, mode {mode}: {join}")),
+        Ok(Ok(_)) => {}
+    }
+    let out = out.lock().unwrap();
+    let mut dg = vec![];
+    for (i, m) in out.iter().enumerate() {
+        match m {
+            penguin_mux::ws::Message::Binary(b) => match vf_ref::frame::decode(b) {
+                Ok(RFrame::Datagram { id, .. }) => dg.push(id),
+                other => return Outcome::violation("c08-backlog-unexpected-frame", format!("backlog {n}: message {i} is {other:?}")),
+            },
+            penguin_mux::ws::Message::Close => {
+                if i + 1 != out.len() {
+                    return Outcome::violation("c08-backlog-close-not-last", format!("backlog {n}: Close is message {i} of {}", out.len()));
+                }
+            }
+            _ => {}
+        }
+    }
+    let want: Vec<u32> = (0..n).collect();
+    if dg != want {
+        let first = dg.iter().zip(want.iter()).position(|(a, b)| a != b).unwrap_or(dg.len().min(want.len()));
+        return Outcome::violation(
+            "c08-drop-loses-datagram",
+            format!("{n} datagrams were accepted by send_datagram before the Multiplexor was dropped (sink back-pressured, mode {mode}); {} were transmitted before the WebSocket was closed (first difference at position {first})", dg.len()),
+        );
+    }
+    if !matches!(out.last(), Some(penguin_mux::ws::Message::Close)) {
+        return Outcome::violation("c08-drop-no-close", format!("backlog {n}: the last message is not Close"));
+    }
+    Outcome::pass(n > 128, vec!["drop-flush-backlog"])
 }
